@@ -25,6 +25,8 @@ func init() {
 			"two fields are treated as the same field only when name, alias, absence of selections, arguments and directives agree, and a selection is removed only on that verdict after its defer information was merged. " +
 			"It does not decide exec(norm(q)) == exec(q), validity preservation or idempotence (value level).",
 		Mutants: []Mutant{
+			{Name: "a nested fragment without a type condition counts as a fragment on a foreign type again (reverts the F94 fix)", File: "v2/pkg/astnormalization/inline_selections_from_inline_fragments.go", Rule: "C03-R18", Key: "inlineSelectionsFromInlineFragmentsVisitor.couldInline/type-condition-known:nestedFragmentRef",
+				Old: "\t\tif !m.operation.InlineFragmentHasTypeCondition(nestedFragmentRef) {\n\t\t\t// a fragment without a type condition is of the type of its parent\n\t\t\tcontinue\n\t\t}\n", New: ""},
 			{Name: "list coercion registered before default value extraction on the variables walker (reverts the F93 fix)", File: "v2/pkg/astnormalization/astnormalization.go", Rule: "C03-R17", Key: "OperationNormalizer.setupOperationWalkers/extractVariablesDefaultValue-before-inputCoercionForList",
 				Old: "\t\textractVariablesDefaultValue(&variablesProcessing)\n\t\tinputCoercionForList(&variablesProcessing)\n", New: "\t\tinputCoercionForList(&variablesProcessing)\n\t\textractVariablesDefaultValue(&variablesProcessing)\n"},
 			{Name: "the variables mapper records only variables that are the whole argument value (reverts part of the F92 fix)", File: "v2/pkg/astnormalization/variables_mapping.go", Rule: "C03-R16", Key: "variablesMappingVisitor/container-kinds-descended",
@@ -106,6 +108,7 @@ func runC03(r *fw.Run) {
 	c03InlinerCoversTheSpreadMatrix(r)
 	c03MapperSeesEveryUseAndEveryKeptName(r)
 	c03DefaultsAreInPlaceBeforeListCoercion(r)
+	c03UntypedFragmentsAreNotTakenForForeignTypes(r)
 
 	r.Rule("C03-R9", "normalization runs before validation: in astnormalization and package ast the ref of an ast.Value is handed to an accessor of kind K (doc.<K>Value…(v.Ref), doc.<K>Values[v.Ref]) only where v.Kind is known to be K (equality or switch clause on the same value, a boolean local defined from it, or every caller of an unexported helper); VariableDefinition.VariableValue is a variable by construction")
 	nKR := kindRefAgreement(r, "C03-R9", []string{"astnorm", "ast"}, nil)
@@ -1350,4 +1353,160 @@ func c03DefaultsAreInPlaceBeforeListCoercion(r *fw.Run) {
 		check("VariablesNormalizer.NormalizeOperation", run.Pos(), order)
 	}
 	r.Expect("C03-R17", "normalization pipelines whose variable stages were ordered", n, 2)
+}
+
+// c03UntypedFragmentsAreNotTakenForForeignTypes (R18): an inline fragment without a type condition (`... { id }`,
+// `... @include(if: $x) { id }` after the directive was evaluated) is of the type of its parent; its type condition name is
+// empty. Compared with a type name of the schema the empty name equals nothing and implements nothing, so the fragment is
+// taken for a fragment on a foreign type. Rule (a contradiction rule: the same function guards one such read and not the
+// other): where the name returned by Document.InlineFragmentTypeConditionName(x) is handed to a method of the *other*
+// document, or compared (bytes.Equal) with a name that comes from the other document, the use is dominated by the true
+// edge of InlineFragmentHasTypeCondition(x) for the same x. Comparing the condition names of two fragments of the same
+// document with each other needs no guard (two untyped siblings are of the same type).
+func c03UntypedFragmentsAreNotTakenForForeignTypes(r *fw.Run) {
+	p := r.Prog
+	r.Rule("C03-R18", "the type condition name of an inline fragment is handed to, or compared with a name from, the other document only where the fragment is known to have a type condition (true edge of InlineFragmentHasTypeCondition for the same fragment)")
+	isDocRecv := func(info *types.Info, c *ast.CallExpr) (string, bool) {
+		sel, ok := ast.Unparen(c.Fun).(*ast.SelectorExpr)
+		if !ok {
+			return "", false
+		}
+		fn := fw.Callee(info, c)
+		if fn == nil || fw.RecvNameOfFunc(fn) != "Document" || fn.Pkg() == nil || fn.Pkg().Path() != fw.PkgPath("ast") {
+			return "", false
+		}
+		return fw.ExprKey(info, sel.X), true
+	}
+	n := 0
+	for _, fi := range p.Funcs("astnorm") {
+		info := fi.Info()
+		type read struct {
+			recvKey, argKey string
+			obj             types.Object // the local holding the name, nil when used in place
+			call            *ast.CallExpr
+		}
+		var reads []read
+		fw.WalkAll(fi.Decl.Body, func(nd ast.Node) bool {
+			c, ok := nd.(*ast.CallExpr)
+			if !ok || len(c.Args) != 1 {
+				return true
+			}
+			fn := fw.Callee(info, c)
+			if fn == nil || !strings.HasPrefix(fn.Name(), "InlineFragmentTypeConditionName") {
+				return true
+			}
+			if rk, isDoc := isDocRecv(info, c); isDoc {
+				reads = append(reads, read{recvKey: rk, argKey: fw.ExprKey(info, c.Args[0]), call: c})
+			}
+			return true
+		})
+		if len(reads) == 0 {
+			continue
+		}
+		// locals assigned from a read, and locals assigned from a call on a document (for the other side of bytes.Equal)
+		localDoc := map[types.Object]string{}
+		fw.WalkAll(fi.Decl.Body, func(nd ast.Node) bool {
+			as, ok := nd.(*ast.AssignStmt)
+			if !ok || len(as.Lhs) != len(as.Rhs) {
+				return true
+			}
+			for i, l := range as.Lhs {
+				id, isID := l.(*ast.Ident)
+				if !isID {
+					continue
+				}
+				rc, isCall := ast.Unparen(as.Rhs[i]).(*ast.CallExpr)
+				if !isCall {
+					continue
+				}
+				for k := range reads {
+					if reads[k].call == rc {
+						reads[k].obj = info.ObjectOf(id)
+					}
+				}
+				if rk, isDoc := isDocRecv(info, rc); isDoc {
+					localDoc[info.ObjectOf(id)] = rk
+				}
+			}
+			return true
+		})
+		docOf := func(e ast.Expr) (string, bool) {
+			e = ast.Unparen(e)
+			if c, ok := e.(*ast.CallExpr); ok {
+				return isDocRecv(info, c)
+			}
+			if id, ok := e.(*ast.Ident); ok {
+				k, has := localDoc[info.ObjectOf(id)]
+				return k, has
+			}
+			return "", false
+		}
+		isRead := func(e ast.Expr) *read {
+			e = ast.Unparen(e)
+			for k := range reads {
+				if c, ok := e.(*ast.CallExpr); ok && c == reads[k].call {
+					return &reads[k]
+				}
+				if id, ok := e.(*ast.Ident); ok && reads[k].obj != nil && info.ObjectOf(id) == reads[k].obj {
+					return &reads[k]
+				}
+			}
+			return nil
+		}
+		seen := map[string]bool{}
+		in := fw.NewInterp(fi)
+		in.H = fw.Hooks{
+			Lit: func(l *ast.FuncLit, ctx fw.LitCtx, st *fw.State) fw.LitMode { return fw.LitSkip },
+			Cond: func(e ast.Expr, branch bool, st *fw.State) {
+				a := fw.Atom(info, e, branch)
+				if a.Kind != "True" {
+					return
+				}
+				if c, ok := ast.Unparen(a.X).(*ast.CallExpr); ok && len(c.Args) == 1 {
+					if fn := fw.Callee(info, c); fn != nil && fn.Name() == "InlineFragmentHasTypeCondition" {
+						st.Set("typed:" + fw.ExprKey(info, c.Args[0]))
+					}
+				}
+			},
+			Node: func(nd ast.Node, st *fw.State) {
+				c, ok := nd.(*ast.CallExpr)
+				if !ok || !in.Final() {
+					return
+				}
+				var rd *read
+				cross := false
+				if rk, isDoc := isDocRecv(info, c); isDoc {
+					for _, a := range c.Args {
+						if x := isRead(a); x != nil && x.recvKey != rk {
+							rd, cross = x, true
+						}
+					}
+				} else if fn := fw.Callee(info, c); fn != nil && fn.Pkg() != nil && fn.Pkg().Path() == "bytes" && fn.Name() == "Equal" && len(c.Args) == 2 {
+					for i := 0; i < 2; i++ {
+						if x := isRead(c.Args[i]); x != nil {
+							if ok2, has := docOf(c.Args[1-i]); has && ok2 != x.recvKey {
+								rd, cross = x, true
+							}
+						}
+					}
+				}
+				if !cross {
+					return
+				}
+				key := fi.Name() + "/type-condition-known:" + rd.argKey
+				okNow := st.Must("typed:" + rd.argKey)
+				if seen[key] && okNow {
+					return
+				}
+				if !seen[key] {
+					n++
+				}
+				seen[key] = true
+				r.Check(okNow, "C03-R18", key, p.Pos(c.Pos()), "in "+fi.Name()+" the type condition name of "+rd.argKey+" meets the schema only where the fragment has a type condition",
+					"in "+fi.Name()+" the type condition name of "+rd.argKey+" is compared with, or handed to, the schema document on a path that has not established that the fragment has a type condition: an untyped fragment (`... { id }`) has the empty name, equals no type and implements nothing, and is taken for a fragment on a foreign type — `query Q { a { ... on Node { ... { id } } name id } }` normalizes to `{a {... on Node {id} name id}}` and only a second normalization reaches `{a {id name}}`: the output is not a fixed point, and two spellings of one operation get two plan cache keys")
+			},
+		}
+		in.Run(nil)
+	}
+	r.Expect("C03-R18", "uses of an inline fragment's type condition name against the schema", n, 2)
 }
